@@ -283,7 +283,8 @@ CHECKS = {
                  "(hash of its JSON); 'states' counts distinct (cap, front, back) ring states that were wrapped or full"),
         "assumptions": ["verif hook VerifState/VerifSlots reports the real ring buffer (read-only, 12 lines)",
                         "rapid v1.3.0 generator/shrinker; go1.26.8 toolchain"],
-        "jobs": [{"pkg": "c04deque", "kinds": ["deque", "deque-any", "deque-elem-size"], "scale_thorough": 10, "shards_thorough": 16, "fuzz": [("FuzzDeque", "deque")]}],
+        "jobs": [{"pkg": "c04deque", "run": "TestDequeHugeCap", "kinds": ["deque-huge-cap"], "scale_thorough": 3, "shards_thorough": 1},
+                 {"pkg": "c04deque", "run": "TestDeque$|TestDequeInterfaceElements|TestDequeOddElementSizes", "kinds": ["deque", "deque-any", "deque-elem-size"], "scale_thorough": 10, "shards_thorough": 16, "fuzz": [("FuzzDeque", "deque")]}],
     },
 }
 
@@ -292,7 +293,7 @@ RULE_ADDENDA = {
     "C01": " Key kinds also include pointer keys (the comparator dereferences) and []byte keys (a type == cannot compare).",
     "C02": " Key kinds as in C01 (incl. pointer and []byte keys); a 'churn' step performs exactly 2^8 or 2^16 structural changes away from the iterators between two Next calls.",
     "C03": " Key kinds as in C01 (incl. pointer and []byte keys). Kind tree-huge: one tree of 0.5-1.1 million keys (7 and more levels): monotone fill, 0-200000 keys scattered into the gaps, a contiguous block of 0-400000 keys drained; after each phase the structural walk, depth bound, complete ascending iteration and a Contains (with comparison count) for every key (always non-trivial).",
-    "C04": " Kind deque-elem-size: the same plans over struct{} elements and over 328-byte elements. Elements are padded pointer-holding structs so that weak pointers to popped elements can be required to clear after a GC; 'bulk_push' steps build backlogs of 1000-5000 items; iterations may be nested; Grow/Shrink arguments go up to MaxInt.",
+    "C04": " Kind deque-huge-cap (own process): a Deque[byte] with a buffer of 2^31 ... 2^32+5 slots (address space only), 20-200 operations at both ends with the front at the start or at the far end of the buffer, against a slice model. Kind deque-elem-size: the same plans over struct{} elements and over 328-byte elements. Elements are padded pointer-holding structs so that weak pointers to popped elements can be required to clear after a GC; 'bulk_push' steps build backlogs of 1000-5000 items; iterations may be nested; Grow/Shrink arguments go up to MaxInt.",
     "C05": " Kind queue-nan-keys: float64 keys incl. NaN (entries that can be put in and popped but never addressed): Len, Contains, minimality of Pop / Peek (non-trivial = a NaN entry was popped). Kind queue-huge: one queue holding 40000-140000 keys at once, taken down to 1/3-1/64 of its peak by Removes (and Pops), refilled, drained, against a map model (always non-trivial). Priorities are ints or []int (pointer-holding); 'bulk' steps push and pop 1000-5000 items (heap and queue).",
     "C06": " Kind list-clear-wrap (own process): the generated plan on lists that have been Cleared 2^8, 2^16 and 2^32 (-2 ... +1) times before. Steps also include 'relocate' (the List value is moved to another address), 'bulk' (hundreds of nodes) and reuse of cleared handles; kind list-gc: nodes only reachable through the list survive three GCs with their pointer-holding payload intact.",
     "C07": " Kind shared-upstream: outer = G(inner), inner = F(src) for F, G in First / Filter / Map / CompactFunc, pulled alternately through outer, inner and src against a model with one shared source position (non-trivial = pulls through at least two of them); one case in 25 instead runs Compact / Filter over a stretch of 1-3 million dropped items with the goroutine stack limited to 64 MB. Inputs include NaN, negative and huge counts, 1025-2600-item inputs for Chunk/Last; callbacks are counted; results must be independent of their inputs (scribbling); argument slices must be left intact; constructors are read with contexts that end before, between and during calls.",
